@@ -3,20 +3,24 @@
 (* acquires as soon as the path is free (urgent).  "woken" is a ghost so    *)
 (* that acquiring after having waited is a transition of its own.           *)
 EXTENDS PathLock, Sequences
-VARIABLES hist, after   \* after: what happened last to the path ("", "close", "bad:<cause>")
+VARIABLES hist, after   \* after: the last two things that happened to the path (ghost, part of the view: e.g. an
+                        \* open after "a waiter acquired after the holder closed" is a transition of its own)
 Urgent == \E h \in Handles : st[h] = "waiting" /\ holder = None
 Res == IF holder = None THEN "ok" ELSE "lockfailed"
 Step(a, h, r) == hist' = hist \o a \o ":" \o h \o ":" \o r \o ","
-RInit == Init /\ hist = "" /\ after = ""
+RInit == Init /\ hist = "" /\ after = <<"", "">>
+Then(x) == after' = <<after[2], x>>
 RNext ==
-  \/ \E h \in Handles : OpenWaitAcq(h) /\ Step("Acq", h, "ok") /\ after' = "acq"
+  \/ \E h \in Handles : OpenWaitAcq(h) /\ Step("Acq", h, "ok") /\ Then("acq")
   \/ /\ ~Urgent
      /\ \E h \in Handles :
-          \/ Open(h) /\ Step("Open", h, Res) /\ after' = "open"
+          \/ Open(h) /\ Step("Open", h, Res) /\ Then("open-" \o Res)
+          \/ Open(h) /\ Step("OpenRO", h, Res) /\ Then("openro-" \o Res)   \* Options.Readonly: still exclusive
           \/ /\ \A g \in Handles : st[g] # "waiting"       \* one waiter at a time: which waiter wins is not determined
-             /\ OpenWaitCall(h) /\ Step("WaitCall", h, IF holder = None THEN "free" ELSE "held") /\ after' = after
-          \/ Close(h) /\ Step("Close", h, "ok") /\ after' = "close"
-          \/ \E c \in Causes : OpenBad(h, c) /\ Step("Bad-" \o c, h, Res) /\ after' = "bad-" \o c
+             /\ OpenWaitCall(h) /\ Step("WaitCall", h, IF holder = None THEN "free" ELSE "held")
+             /\ Then(IF holder = None THEN "wait-free" ELSE "wait-held")
+          \/ Close(h) /\ Step("Close", h, "ok") /\ Then("close")
+          \/ \E c \in Causes : OpenBad(h, c) /\ Step("Bad-" \o c, h, Res) /\ Then("bad-" \o c)
 RSpec == RInit /\ [][RNext]_<<vars, hist, after>>
 View == <<st, holder, after>>
 Emit == PrintT("@P " \o hist')
